@@ -68,6 +68,9 @@ func c19Alphabet() []dtOp {
 	a = append(a,
 		dtOp{C: "set", Key: "k2", Dev: true}, dtOp{C: "hset", Key: "k2", F: "f1", Dev: true}, dtOp{C: "rpush", Key: "k2", Dev: true}, dtOp{C: "del", Key: "k2", Dev: true},
 		dtOp{C: "advance", Dev: true}, dtOp{C: "restart", Dev: true},
+		// restart after a crash that tore the previous command off the log (its last byte never reached the disk):
+		// every mutating command is one record or one batch, so the command is lost as a whole
+		dtOp{C: "crashtear", Dev: true},
 		// edge values: a score that needs more than 24 mantissa bits, a string whose bytes do not decode as container
 		// metadata (every 0xFF), a sorted-set member that looks like another member's score-ordered key
 		dtOp{C: "zadd", Key: k, F: "m2", Sc: 16777217.5, Dev: true},
@@ -133,6 +136,45 @@ type dtRun struct {
 	opts kv.Options
 	m    dtModel
 	step int
+	// for crashtear: the model before the previous command and whether that command made the log grow
+	prevModel dtModel
+	prevGrew  bool
+}
+
+func (m dtModel) clone() dtModel {
+	c := dtModel{}
+	for k, v := range m {
+		n := *v
+		n.hash, n.set, n.zset = map[string]string{}, map[string]bool{}, map[string]float64{}
+		for a, b := range v.hash {
+			n.hash[a] = b
+		}
+		for a, b := range v.set {
+			n.set[a] = b
+		}
+		for a, b := range v.zset {
+			n.zset[a] = b
+		}
+		n.list = append([]string{}, v.list...)
+		c[k] = &n
+	}
+	return c
+}
+
+// logBytes is the total size of the data files and the name of the newest one.
+func (r *dtRun) logBytes() (total int64, newest string) {
+	ents, _ := os.ReadDir(r.opts.DirPath)
+	for _, e := range ents {
+		if strings.HasSuffix(e.Name(), ".data") {
+			if st, err := e.Info(); err == nil {
+				total += st.Size()
+			}
+			if e.Name() > newest {
+				newest = e.Name()
+			}
+		}
+	}
+	return
 }
 
 func (r *dtRun) val() []byte { return []byte(fmt.Sprintf("v%d", r.step)) }
@@ -141,6 +183,20 @@ func isWrongType(err error) bool { return errors.Is(err, datatype.ErrWrongTypeOp
 
 // apply executes one command on the service and the model; returns (violation detail, unjudged).
 func (r *dtRun) apply(o dtOp) (string, bool) {
+	if o.C == "crashtear" || o.C == "restart" || o.C == "advance" {
+		d, u := r.apply1(o)
+		r.prevModel, r.prevGrew = nil, false
+		return d, u
+	}
+	before := r.m.clone()
+	b0, _ := r.logBytes()
+	d, u := r.apply1(o)
+	b1, _ := r.logBytes()
+	r.prevModel, r.prevGrew = before, b1 > b0
+	return d, u
+}
+
+func (r *dtRun) apply1(o dtOp) (string, bool) {
 	r.step++
 	key := []byte(o.Key)
 	m := r.m
@@ -155,6 +211,27 @@ func (r *dtRun) apply(o dtOp) (string, bool) {
 				v.expired = true
 			}
 		}
+	case "crashtear":
+		if err := r.svc.Close(); err != nil {
+			return mismatch("Close: %v", err)
+		}
+		if r.prevGrew && r.prevModel != nil {
+			if _, newest := r.logBytes(); newest != "" {
+				p := filepath.Join(r.opts.DirPath, newest)
+				if st, err := os.Stat(p); err == nil && st.Size() > 0 {
+					os.Truncate(p, st.Size()-1)
+					r.m = r.prevModel
+					m = r.m
+				}
+			}
+		}
+		vtime.Advance(2 * time.Millisecond) // a restart takes at least 2 ms of wall-clock time (stated assumption)
+		svc, err := datatype.NewDataTypeService(r.opts)
+		if err != nil {
+			r.svc = nil
+			return mismatch("NewDataTypeService after a crash that tore the last command: %v", err)
+		}
+		r.svc = svc
 	case "restart":
 		before := r.battery()
 		if err := r.svc.Close(); err != nil {
